@@ -61,6 +61,33 @@ type Term struct {
 	Name string   // var / uninterpreted function name / raw operator text
 	id   int64
 	size int32 // approximate DAG-unshared size, capped
+	// range facts used to keep byte-assembly arithmetic linear:
+	// hi != nil  =>  0 <= t <= hi;  tz = number of low bits known to be zero
+	hi *big.Int
+	tz int
+}
+
+func (t *Term) knownHi() *big.Int {
+	if t.IsConst() && t.S.K == SInt && t.Val.Sign() >= 0 {
+		return t.Val
+	}
+	return t.hi
+}
+
+func (t *Term) knownTz() int {
+	if t.IsConst() && t.S.K == SInt {
+		if t.Val.Sign() == 0 {
+			return 1 << 20
+		}
+		return int(new(big.Int).Abs(t.Val).TrailingZeroBits())
+	}
+	return t.tz
+}
+
+// WithHi records 0 <= t <= hi on a fresh term (variables of unsigned kinds).
+func (t *Term) WithHi(hi *big.Int) *Term {
+	t.hi = hi
+	return t
 }
 
 var termCounter int64
@@ -135,7 +162,18 @@ func Add(a, b *Term) *Term {
 	if b.IsConst() && a.Op == "+" && len(a.Args) == 2 && a.Args[1].IsConst() {
 		return Add(a.Args[0], IntConst(new(big.Int).Add(a.Args[1].Val, b.Val)))
 	}
-	return newTerm("+", IntSort, a, b)
+	t := newTerm("+", IntSort, a, b)
+	if ha, hb := a.knownHi(), b.knownHi(); ha != nil && hb != nil {
+		t.hi = new(big.Int).Add(ha, hb)
+	}
+	t.tz = a.knownTz()
+	if z := b.knownTz(); z < t.tz {
+		t.tz = z
+	}
+	if t.tz > 4096 {
+		t.tz = 0
+	}
+	return t
 }
 
 func Sub(a, b *Term) *Term {
@@ -177,7 +215,17 @@ func Mul(a, b *Term) *Term {
 	if a.IsConst() { // keep constants on the right for readability
 		a, b = b, a
 	}
-	return newTerm("*", IntSort, a, b)
+	t := newTerm("*", IntSort, a, b)
+	if b.IsConst() && b.Val.Sign() > 0 {
+		if ha := a.knownHi(); ha != nil {
+			t.hi = new(big.Int).Mul(ha, b.Val)
+		}
+		t.tz = a.knownTz() + b.knownTz()
+		if t.tz > 4096 {
+			t.tz = 0
+		}
+	}
+	return t
 }
 
 // EDiv/EMod are SMT-LIB's Euclidean div/mod; the divisor must be non-zero
@@ -190,7 +238,13 @@ func EDiv(a, b *Term) *Term {
 	if isOne(b) {
 		return a
 	}
-	return newTerm("div", IntSort, a, b)
+	t := newTerm("div", IntSort, a, b)
+	if b.IsConst() && b.Val.Sign() > 0 {
+		if ha := a.knownHi(); ha != nil {
+			t.hi = new(big.Int).Div(ha, b.Val)
+		}
+	}
+	return t
 }
 
 func EMod(a, b *Term) *Term {
@@ -201,7 +255,16 @@ func EMod(a, b *Term) *Term {
 	if isOne(b) {
 		return IntConst64(0)
 	}
-	return newTerm("mod", IntSort, a, b)
+	if b.IsConst() && b.Val.Sign() > 0 {
+		if ha := a.knownHi(); ha != nil && ha.Cmp(b.Val) < 0 {
+			return a // already in range
+		}
+	}
+	t := newTerm("mod", IntSort, a, b)
+	if b.IsConst() && b.Val.Sign() > 0 {
+		t.hi = new(big.Int).Sub(b.Val, big.NewInt(1))
+	}
+	return t
 }
 
 func Ite(c, a, b *Term) *Term {
